@@ -131,7 +131,11 @@ class Engine(GenericConcreteEngine[Callable[..., Any]]):
                     return tree, commutator.done, commutator.messages
                 else:
                     upstream, done, messages = self.backtrack_unary(commutator.first, target, preferred)
-                    if upstream is not target:
+                    if upstream is not target or commutator.second is not tree.operation:
+                        # Rebuild when anything upstream changed, and also when
+                        # the commutator replaced the existing operation (e.g.
+                        # a projection that supersedes a calculation) even if
+                        # the moved operation did nothing further upstream.
                         result = commutator.second._finish_apply(upstream)
                     else:
                         result = tree
